@@ -9,6 +9,7 @@ secret from creation on (randomized contexts, which ctime_tests.c never signs wi
 """
 import json
 import os
+import threading
 import subprocess
 import time
 from concurrent.futures import ThreadPoolExecutor
@@ -24,7 +25,7 @@ PROPS = {"C06"}
 # floors: what the design-time reading of ctime_tests.c established (guards against a gutted oracle)
 MIN_SOURCES = 30       # CHECKMEM_UNDEFINE marker executions reached from main (33 on the reviewed tree)
 MIN_APIS = 30          # distinct library entry points called by run_tests
-MIN_EXEC = 100000      # abstract function executions
+MIN_EXEC = 80000       # abstract function executions (K3 is the smallest: ~90k on the reviewed tree)
 
 
 def run_irx(ll, args, jout, timeout=1500):
@@ -40,7 +41,7 @@ def run_irx(ll, args, jout, timeout=1500):
 def fixture_control():
     """The engine must report the four seeded sinks of fixtures/ct_fixture.c and nothing after declassification."""
     os.makedirs(WORK, exist_ok=True)
-    ll = os.path.join(WORK, "ct_fixture.%d.ll" % os.getpid())
+    ll = os.path.join(WORK, "ct_fixture.%d.%d.ll" % (os.getpid(), threading.get_ident()))
     src = os.path.join(VERIF, "fixtures", "ct_fixture.c")
     r = subprocess.run(["clang-14", "-O0", "-Xclang", "-disable-O0-optnone", "-g", "-S", "-emit-llvm", src, "-o", ll],
                        stdout=subprocess.PIPE, stderr=subprocess.PIPE, text=True)
